@@ -62,7 +62,8 @@ def gen_scenario(c, n, mode, b, independent=True, n_rows=2, K=2, features="sym",
         sub = [i for i in allowed if c.choose([(1, True), (0, True)], f"cand[{i}]")]
         if not sub:
             raise core.PathAbort("empty candidate set")
-        s.cand = list(reversed(sub))  # unsorted on purpose (check_indices sorts / de-duplicates)
+        # unsorted, and with one index listed twice: check_indices sorts and de-duplicates
+        s.cand = list(reversed(sub)) + ([sub[0]] if len(sub) >= 2 else [])
         s.cand_set = sorted(sub)
         s.ncols = n
     elif mode == "rows":
